@@ -1,5 +1,4 @@
 import JominiModel.Props.C14
-open Jomini.Props.C14
-#print axioms C14_indent
-#print axioms C14_offsets_irrelevant
-#print axioms C14_idempotent
+#print axioms Jomini.Props.C14.C14_indent
+#print axioms Jomini.Props.C14.C14_offsets_irrelevant
+#print axioms Jomini.Props.C14.C14_idempotent
